@@ -87,22 +87,79 @@ def _tables(repo):
     return out
 
 
-def _repeat_count(x):
+def _repeat_count(x, cv=None):
+    cv = cv or U.const_value
     try:
         if isinstance(x, ast.ListComp) and isinstance(x.generators[0].iter, ast.Call) and U.call_name(x.generators[0].iter) == 'range' \
                 and len(x.generators) == 1 and not x.generators[0].ifs:
-            return U.const_value(x.generators[0].iter.args[0])
+            return cv(x.generators[0].iter.args[0])
         if isinstance(x, ast.BinOp) and isinstance(x.op, ast.Mult):
             for lst, k in ((x.left, x.right), (x.right, x.left)):
                 if isinstance(lst, ast.List) and len(lst.elts) == 1:
-                    return U.const_value(k)
+                    return cv(k)
         if isinstance(x, ast.Call) and U.call_name(x) == 'np.full' and x.args:
-            return U.const_value(x.args[0])
+            return cv(x.args[0])
         if isinstance(x, ast.Call) and U.call_name(x) == 'np.repeat' and len(x.args) >= 2:
-            return U.const_value(x.args[1])
+            return cv(x.args[1])
     except ValueError:
         return None
     return None
+
+
+def _module_tables(tree):
+    """module-level NAME = {str: const, ...} / (str, ...) literals"""
+    out = {}
+    for node in tree.body:
+        if isinstance(node, ast.Assign) and len(node.targets) == 1 and isinstance(node.targets[0], ast.Name):
+            v = node.value
+            try:
+                if isinstance(v, ast.Dict) and all(isinstance(k, ast.Constant) for k in v.keys):
+                    out[node.targets[0].id] = {k.value: U.const_value(x) for k, x in zip(v.keys, v.values)}
+                elif isinstance(v, (ast.Tuple, ast.List, ast.Set)) and v.elts and all(isinstance(e, ast.Constant) and isinstance(e.value, str) for e in v.elts):
+                    out[node.targets[0].id] = {e.value: None for e in v.elts}
+            except ValueError:
+                pass
+    return out
+
+
+def _specialise(stmts, keys, kind, tables):
+    """the statements of `stmts` executed when every expression in `keys` (source texts of the orbit-type selector) equals `kind`:
+    tests of the selector against string literals / constant tables are decided, other conditionals contribute both arms"""
+    def decide(t):
+        if isinstance(t, ast.Compare) and len(t.ops) == 1 and U.src(t.left) in keys:
+            c = t.comparators[0]
+            if isinstance(t.ops[0], (ast.Eq, ast.NotEq)) and isinstance(c, ast.Constant) and isinstance(c.value, str):
+                return (c.value == kind) == isinstance(t.ops[0], ast.Eq)
+            if isinstance(t.ops[0], (ast.In, ast.NotIn)):
+                members = None
+                if isinstance(c, ast.Name) and c.id in tables:
+                    members = set(tables[c.id])
+                elif isinstance(c, (ast.Tuple, ast.List, ast.Set)) and all(isinstance(e, ast.Constant) for e in c.elts):
+                    members = {e.value for e in c.elts}
+                if members is not None:
+                    return (kind in members) == isinstance(t.ops[0], ast.In)
+        if isinstance(t, ast.BoolOp):
+            vals = [decide(v) for v in t.values]
+            if isinstance(t.op, ast.Or):
+                return True if any(v is True for v in vals) else (False if all(v is False for v in vals) else None)
+            return False if any(v is False for v in vals) else (True if all(v is True for v in vals) else None)
+        if isinstance(t, ast.UnaryOp) and isinstance(t.op, ast.Not):
+            d = decide(t.operand)
+            return None if d is None else not d
+        return None
+    out = []
+    for st in stmts:
+        if isinstance(st, ast.If):
+            d = decide(st.test)
+            if d is True:
+                out += _specialise(st.body, keys, kind, tables)
+            elif d is False:
+                out += _specialise(st.orelse, keys, kind, tables)
+            else:
+                out += _specialise(st.body, keys, kind, tables) + _specialise(st.orelse, keys, kind, tables)
+        else:
+            out.append(st)
+    return out
 
 
 def r162(repo, ctx):
@@ -110,30 +167,53 @@ def r162(repo, ctx):
     tabs = _tables(repo)
     ctx.floor('R16.2', len(tabs), 3)
     lp = repo.func(LN, 'loadPoints')
-    # multiplicities read from the generator: w = [node[i][1] for n in range(k)]
+    # multiplicities read from the generator: for each orbit type the loop body is specialised to that type and the number of
+    # times the weight is appended is read off: weights = np.concatenate((weights, X)) with X = [w for _ in range(k)],
+    # [w]*k, np.full(k, w) or np.repeat(w, k) (directly or through a local), k a literal or an entry of a constant table
     mult = {}
     branches = {}
-    for s in ast.walk(lp):
-        if isinstance(s, ast.If) and isinstance(s.test, ast.Compare) and isinstance(s.test.comparators[0], ast.Constant) and isinstance(s.test.comparators[0].value, str):
-            kind = s.test.comparators[0].value
-            branches[kind] = s
-            # the weight of the orbit is appended k times: weights = np.concatenate((weights, X)) with X = [w for _ in range(k)],
-            # [w]*k, np.full(k, w) or np.repeat(w, k) (directly or through a local of the branch)
-            local = {}
-            for st in s.body:
-                if isinstance(st, ast.Assign) and isinstance(st.targets[0], ast.Name):
-                    local[st.targets[0].id] = st.value
-            for st in s.body:
-                if isinstance(st, ast.Assign) and isinstance(st.targets[0], ast.Name) and st.targets[0].id == 'weights' and isinstance(st.value, ast.Call) \
-                        and U.call_name(st.value) in ('np.concatenate', 'np.append', 'np.hstack'):
-                    a = st.value.args
-                    parts = list(a[0].elts) if len(a) >= 1 and isinstance(a[0], (ast.Tuple, ast.List)) else list(a)
-                    for x in parts:
-                        if isinstance(x, ast.Name) and x.id in local:
-                            x = local[x.id]
-                        k = _repeat_count(x)
-                        if k is not None:
-                            mult[kind] = k
+    tables = _module_tables(repo.module(LN).tree)
+    sel_tests = [s for s in ast.walk(lp) if isinstance(s, ast.If) and isinstance(s.test, ast.Compare) and len(s.test.ops) == 1 and isinstance(s.test.ops[0], ast.Eq)
+                 and isinstance(s.test.comparators[0], ast.Constant) and isinstance(s.test.comparators[0].value, str)]
+    keys = {U.src(s.test.left) for s in sel_tests}
+    for s in sel_tests:
+        branches[s.test.comparators[0].value] = s
+    loops = [l for l in ast.walk(lp) if isinstance(l, (ast.For, ast.While)) and any(s_ in sel_tests for s_ in ast.walk(l))]
+    body = loops[0].body if loops else []
+    # the selector may be a local bound once in the loop body (nodeType = entry[0])
+    for st in body:
+        if isinstance(st, ast.Assign) and len(st.targets) == 1 and isinstance(st.targets[0], ast.Name) and st.targets[0].id in keys:
+            keys.add(U.src(st.value))
+    for kind in sorted(set(branches) | set(MULT)):
+        path = _specialise(body, keys, kind, tables)
+
+        def cv(e, kind=kind):
+            if isinstance(e, ast.Subscript) and isinstance(e.value, ast.Name) and e.value.id in tables and U.src(e.slice) in keys:
+                v = tables[e.value.id].get(kind)
+                if v is None:
+                    raise ValueError('no table entry')
+                return v
+            return U.const_value(e)
+        local = {}
+        total = None
+        for st in path:
+            if isinstance(st, ast.Assign) and len(st.targets) == 1 and isinstance(st.targets[0], ast.Name) and st.targets[0].id != 'weights':
+                local[st.targets[0].id] = st.value
+            if isinstance(st, ast.Assign) and isinstance(st.targets[0], ast.Name) and st.targets[0].id == 'weights' and isinstance(st.value, ast.Call) \
+                    and U.call_name(st.value) in ('np.concatenate', 'np.append', 'np.hstack'):
+                a = st.value.args
+                parts = list(a[0].elts) if len(a) >= 1 and isinstance(a[0], (ast.Tuple, ast.List)) else list(a)
+                for x in parts:
+                    if isinstance(x, ast.Name) and x.id == 'weights':
+                        continue
+                    if isinstance(x, ast.Name) and x.id in local:
+                        x = local[x.id]
+                    k = _repeat_count(x, cv)
+                    total = None if k is None else (total or 0) + k
+                    if k is None:
+                        break
+        if total is not None:
+            mult[kind] = total
     ctx.check(mult == MULT, 'R16.2', LN, 'loadPoints', lp, f'orbit multiplicities in the generator are {MULT}', f'orbit multiplicities in the generator are {mult}, expected {MULT}', construct=f'multiplicities {mult}')
     for name, (node, rows) in tabs.items():
         wsum = sum(r[1] * MULT.get(r[0], 0) for r in rows)
